@@ -159,7 +159,8 @@ struct ccase_t
     int             kind{0};  // index into the constraint_t variant (0..10)
     int             dims{1};
     int             index{0}; // dimension of constant / minimum / maximum
-    int             pmode{0}; // quadratic term: 0 B B^T (rank k), 1 B B^T + c I, 2 symmetric indefinite, 3 diagonal >= 0, 4 zero
+    int             pmode{0}; // quadratic term: 0 B B^T (rank k), 1 B B^T + c I, 2 symmetric indefinite, 3 diagonal >= 0, 4 zero,
+                              // 5 general (non-symmetric), 6 upper triangular with a positive diagonal (non-symmetric, real positive eigenvalues)
     int             rank{1};
     double          scalar{0}; // value / radius / r
     double          shift{0};
@@ -217,7 +218,7 @@ rc::Gen<ccase_t> gen_ccase()
             }
             const auto nn = static_cast<size_t>(dims) * static_cast<size_t>(dims);
             return rc::gen::map(
-                rc::gen::tuple(gen::range<int>(0, dims - 1), gen::range<int>(0, 4), gen::range<int>(1, dims),
+                rc::gen::tuple(gen::range<int>(0, dims - 1), gen::range<int>(0, 6), gen::range<int>(1, dims),
                                rc::gen::oneOf(gen::sym(5.0), gen::smallint(-2, 2), gen::logu(1e-3, 1e3)), gen::logu(1e-6, 10.0),
                                gen::logu(1e-3, 1e3), rc::gen::oneOf(gen::vec(static_cast<size_t>(dims), 3.0), gen::vec(static_cast<size_t>(dims), 0.0)),
                                gen::vec(nn, 1.0), c06::gen_material(n, 100)),
@@ -290,6 +291,26 @@ nano::matrix_t make_P(const ccase_t& c, double& frobenius)
         for (nano::tensor_size_t i = 0; i < n; ++i)
         {
             P(i, i) = c.pscale * std::fabs(B(i, i)) + c.shift;
+        }
+        break;
+    case 5:
+        // nothing in the library requires a symmetric P: the value is 1/2 x'Px + q.x + r for any P
+        for (nano::tensor_size_t i = 0; i < n; ++i)
+        {
+            for (nano::tensor_size_t j = 0; j < n; ++j)
+            {
+                P(i, j) = c.pscale * B(i, j);
+            }
+        }
+        break;
+    case 6:
+        for (nano::tensor_size_t i = 0; i < n; ++i)
+        {
+            P(i, i) = c.pscale * std::fabs(B(i, i)) + c.shift;
+            for (nano::tensor_size_t j = i + 1; j < n; ++j)
+            {
+                P(i, j) = c.pscale * B(i, j);
+            }
         }
         break;
     default: break;
@@ -384,8 +405,9 @@ verdict_t check_ccase(const ccase_t& c, ctx_t& ctx)
         ctx.label(std::string("constraint/") + kind_name(c.kind));
         if (c.kind == 7 || c.kind == 8)
         {
-            static const char* modes[] = {"quadratic/psd-low-rank", "quadratic/pd", "quadratic/indefinite", "quadratic/diagonal", "quadratic/zero"};
-            ctx.label(modes[std::clamp(c.pmode, 0, 4)]);
+            static const char* modes[] = {"quadratic/psd-low-rank", "quadratic/pd", "quadratic/indefinite", "quadratic/diagonal", "quadratic/zero",
+                                          "quadratic/non-symmetric", "quadratic/non-symmetric-upper-triangular"};
+            ctx.label(modes[std::clamp(c.pmode, 0, 6)]);
             ctx.label_if(o.convex, "quadratic/declared-convex");
         }
         return v;
